@@ -271,6 +271,7 @@ QUICK_KEEP = {
          "c09_float_w3", "c09_binary_w0", "c09_binary_w1", "c09_binary_w4", "c09_binary_w8", "c09_utf8_w2", "c09_width_dispatch", "c09_unknown_size_equivalence",
          "c09_flush_short_1", "c09_flush_short_3", "c09_flush_short_2_of_5", "c19_binary_width1_overflow", "c19_utf8_width1_len127", "c11_writer_unknown_start_misplaced"],
  "C12": ["hdr_flat_trunc", "cut_u3_b2_at2", "cut_u3_b2_at3", "cut_u3_b2_at4", "cut_u3_b2_at5", "cut_u3_b2_at8"],
+ "C14": ["c14_recover_junk1", "c14_recover_at_end", "hdr_flat_full"],  # c14_recover_arbitrary_3 (~510 s) runs in C05's quick tier and in C14's thorough tier: keeps C14 cold well below 900 s
  "C16": ["c16_arr_to_u64", "c16_arr_to_i64", "c16_arr_to_f64", "c16w_float"] + ["c16w_uint_w0_c%d" % c for c in (1, 2, 4, 8)] + ["c16w_int_w0_c%d" % c for c in (1, 2, 4, 8)]
         + ["c09_uint_w2_c4", "doc_i2_i0", "doc_f4_f8"],
 }
